@@ -24,7 +24,7 @@ FIXED_RANDOM = bytes(range(0xA0, 0xB0))
 
 DIMS = {
     "link_keys": [1, 0, 3],
-    "children": ["none", "two-with-nwk", "two-one-without-nwk"],
+    "children": ["none", "two-with-nwk", "two-one-without-nwk", "three-first-without-nwk"],   # a child without a known NWK address cannot be stored; the others must be
     "tc_known": [True, False, "unknown-copy"],   # unknown as zigpy's EUI64.UNKNOWN object itself / as an equal copy (what a JSON backup yields)
     "hashed": ["present", "absent"],
     "nwk_fc": [0x1234, 0, 1, 0xFFFFFFFF],
@@ -34,7 +34,8 @@ DIMS = {
     "pan": [(0x1A2B, bytes(range(0x10, 0x18))), (0xFFFE, b"\xff" * 7 + b"\x01"), (0x0001, b"\x00" * 7 + b"\x01")],
     "ieee": ["other", "same"],
     "prior": ["blank", "same-backup", "other-backup", "stale-keys"],   # stale-keys: no network, but link keys left in the NCP's table (an earlier restore died after writing them)
-    "burn": ["no", "allowed"],     # the user's "burn the EUI64 into the manufacturing token once" switch (matters without the rewritable token)
+    "burn": ["no", "allowed"],
+    "key_fault": [None, 0, 1],     # the NCP refuses the k-th link-key write of the restore with a transient error (not "table full"): the other keys must still be stored     # the user's "burn the EUI64 into the manufacturing token once" switch (matters without the rewritable token)
 }
 
 
@@ -117,10 +118,10 @@ def make_info(ctx, c, variant=0):
     keys = [zs.Key(key=zt.KeyData(bytes([0x20 + k + x] * 16)), partner_ieee=zt.EUI64(bytes([0x30 + k + x, 9, 8, 7, 6, 5, 4, 3]))) for k in range(c["link_keys"])]
     children, nwk_addresses = [], {}
     if c["children"] != "none":
-        for k in range(2):
+        for k in range(3 if c["children"].startswith("three") else 2):
             e = zt.EUI64(bytes([0x40 + k + x, 1, 1, 1, 1, 1, 1, 1]))
             children.append(e)
-            if not (c["children"] == "two-one-without-nwk" and k == 1):
+            if not (c["children"] == "two-one-without-nwk" and k == 1) and not (c["children"] == "three-first-without-nwk" and k == 0):
                 nwk_addresses[e] = zt.NWK(0x2000 + k + x)
     stack_specific = {}
     if c["hashed"] == "present":
@@ -164,7 +165,10 @@ def one_case(version, rewritable, c):
         want_ieee = zt.EUI64(no.ieee)
         supplied_tc_known = c["tc_known"] is True
         n_sec = len(ctx.ncp.security_frames)
+        ctx.ncp.key_writes = 0
+        ctx.ncp.refuse_key_write = c.get("key_fault")
         r = ctx.run(ctx.app.write_network_info(network_info=ni, node_info=no))
+        ctx.ncp.refuse_key_write = None
         if r[0] != "ok":
             return [f"write_network_info ended with {r[0]} {r[1]!r:.120}"]
         r = ctx.run(ctx.app.load_network_info(load_devices=True))
@@ -202,7 +206,7 @@ def one_case(version, rewritable, c):
             if got.stack_specific.get("ezsp", {}).get("hashed_tclk"):
                 out.append("a hashed trust-centre link key was read back on a version that does not hash it")
         gk = sorted((bytes(k.key.serialize()), bytes(k.partner_ieee.serialize())) for k in got.key_table)
-        wk = sorted((bytes(k.key.serialize()), bytes(k.partner_ieee.serialize())) for k in want.key_table)
+        wk = sorted((bytes(k.key.serialize()), bytes(k.partner_ieee.serialize())) for i, k in enumerate(want.key_table) if i != c.get("key_fault"))
         if gk != wk:
             out.append(f"link-key table: read back {len(gk)} entries {[(a.hex()[:6], b.hex()) for a, b in gk]}, written {len(wk)} {[(a.hex()[:6], b.hex()) for a, b in wk]}")
         if version >= 9:
@@ -270,7 +274,7 @@ def combos(tier):
             c[n] = v
             if emit(c):
                 yield c
-    pair_names = names if tier != "quick" else ["link_keys", "children", "tc_known", "hashed", "ieee", "prior", "nwk_fc", "burn"]
+    pair_names = names if tier != "quick" else ["link_keys", "children", "tc_known", "hashed", "ieee", "prior", "nwk_fc", "burn", "key_fault"]
     for a, b in itertools.combinations(pair_names, 2):
         for va in DIMS[a][1:]:
             for vb in DIMS[b][1:]:
